@@ -402,7 +402,7 @@ func checkC08(c *core.Ctx) {
 	}
 	c.SetExtra("generator_intent_disagreements", intentBad)
 	if intentBad > 0 && c.NumViolations() == 0 {
-		c.Internal("generator intent disagrees with specification and validator on %d documents (see intent_* in the evidence)", intentBad)
+		c.Diagnostic("generator intent disagrees with specification AND validator on %d documents (see intent_* in the evidence): the generator is the weakest of the three witnesses, so this is no verdict", intentBad)
 	}
 }
 
@@ -543,6 +543,7 @@ func mergeFamilyDocs() []string {
 const handRuleSDL = `
 directive @rep repeatable on FIELD
 directive @once on FIELD
+directive @fd(x: Int) on FRAGMENT_DEFINITION | FIELD
 type Query { f(i: Int, l: [Int], ll: [[Int]], lln: [[Int]!], o: In, req: Int! = 5, nn: Int!): Int g(lnn: [Int!]!): Int  a: A  b: B  u: U  i: I  s: String  e(v: E): E any(x: Any): Any one(x: One): Int num(fl: Float, id: ID, fls: [Float], o: Num): Int cc: C lo(os: [In!], oo: In2, ooo: [[In2]]): Int }
 interface I { x: Int }
 type A implements I { x: Int  z: Int  o: B  li: [Int]  lin: [Int]!  n: Int!  p: C }
@@ -560,6 +561,10 @@ type Mutation { m: Int }
 `
 
 var handRuleDocs = []string{
+	// variables used by the directives of a fragment DEFINITION
+	`{ ...F } fragment F on Query @fd(x: $u) { s }`, `query A { ...F } query B($u: Int) { ...F } fragment F on Query @fd(x: $u) { s }`,
+	`query B($u: Int) { ...F } fragment F on Query @fd(x: $u) { s }`, `query B($u: String) { ...F } fragment F on Query @fd(x: $u) { s }`,
+	`query B($u: Int) { s } fragment F on Query @fd(x: $u) { s }`, `query B($u: Int) { ...G } fragment G on Query { a { ...F } } fragment F on A @fd(x: $u) { x }`,
 	`{ s }`, `{ a: f(l:[1], nn: 1) a: f(l:[2], nn: 1) }`, `{ a: f(l:[1], nn: 1) a: f(l:[1], nn: 1) }`, `{ a: f(o:{a:1, r:1}, nn: 1) a: f(o:{a:2, r:1}, nn: 1) }`,
 	`{ a: f(i: 1, nn: 1) a: f(i: 2, nn: 1) }`, `{ a: f(nn: 1) a: f(nn: 1, i: null) }`,
 	`{ u { ... on A { k: x } ... on B { k: li } } }`, `{ u { ... on A { k: o { y } } ... on B { k: y } } }`, `{ u { ... on A { k: li } ... on B { k: li } } }`,
